@@ -678,7 +678,7 @@ class Gen:
                          cell_span=r.choice([None, 1]), header=r.choice([None, None, 'true', 'false']),
                          cornerpoints=r.choice([None, {'t': [0, 1, 2, 3]}, '0 1 2 3', 'a b']),
                          orientation=self.orientation(),
-                         lines=[self.line(need_text=True) for _ in range(r.choice([0, 1, 1, 2]))])
+                         lines=[self.line() for _ in range(r.choice([0, 1, 1, 2]))])
                 cells.append(c)
                 col += 1
         if r.random() < 0.3:
